@@ -555,6 +555,10 @@ TEMPLATES = [
     [("i", [], ["A"]), ("v1", ["A"], ["C", "B", "B", "B"]), ("o1", ["B"], []), ("o2", ["C"], [])],
     [("i", [], ["A"]), ("j", [], ["B"]), ("v1", ["A", "B"], ["C", "D", "E"]), ("o1", ["C"], []), ("o2", ["D"], []), ("o3", ["E"], [])],
     [("i", [], ["A"]), ("v1", ["A"], ["B"]), ("v2", ["A"], ["C"]), ("o1", ["B"], []), ("o2", ["C"], [])],
+    # a compound that takes part more than once on the substrate side (rate k*A*A): inside C16_marginal since both repairs
+    [("i", [], ["A"]), ("v1", ["A", "A"], ["B"]), ("o", ["B"], [])],
+    [("i", [], ["A"]), ("v1", ["A", "A"], ["B", "C"]), ("o1", ["B"], []), ("o2", ["C"], [])],
+    [("i", [], ["A"]), ("j", [], ["B"]), ("v1", ["A", "B", "A"], ["C"]), ("o", ["C"], [])],
 ]
 
 
@@ -691,7 +695,7 @@ def setup(ctx):
         "distinct = distinct (lv, maps, init, base, evals)"
     )
     ctx.assumptions += [
-        "pool sizes (concs) are non-zero; isotopomer model restricted to distinct labelled occurrences (C05)",
+        "pool sizes (concs) are non-zero",
         "base names contain no '__'; stoichiometric coefficients are integers (no Derived coefficients)",
         "float rounding not modelled: pools are powers of two, amounts integers, rate constants dyadic; compared exactly",
     ]
